@@ -90,6 +90,9 @@ def queries(tier):
         nm = "aiobatch-n%d-%s-adv%d" % (na, "_".join("inf" if t < 0 else str(t) for t in ts), adv)
         qs.append(Query(nm, "c02/aio_batch.c", tus=TUS, env=ENV, defs=d, cdefs=["-DENV_NO_CV_UNTIL", "-DNNI_EXPIRE_BATCH=2"], unwind=12, timeout=300,
                         group="c02/aio_batch.c", params={"unit": "core/aio.c nni_aio_expire_loop", "aios": na, "timeouts_ms": list(ts), "clock_advance": adv, "batch": 2}))
+    for n in (2, 3, 4):
+        qs.append(Query("aio-completions-n%d" % n, "c02/aio_batch.c", tus=TUS, env=ENV, defs={"COMPL": n, "NA": 4}, cdefs=["-DENV_NO_CV_UNTIL", "-DNNI_EXPIRE_BATCH=2"], unwind=12, timeout=300,
+                        group="~c02/aio_batch.c#compl", params={"unit": "core/aio.c nni_aio_completions_add / _run", "operations": n, "results_and_counts": "symbolic"}))
     for cls, nm in ((0, "fresh"), (1, "stopped"), (2, "zero-timeout"), (3, "aborted")):
         qs.append(Query("dialer-start-aio-%s" % nm, "c14/dialer_connect.c", tus=["core/list.c", "core/options.c"],
                         env=["env_alloc.c", "env_misc.c", "env_sync.c", "env_aio.c", "env_libc.c"], defs={"STARTAIO": cls}, unwind=30, timeout=300,
